@@ -954,6 +954,16 @@ func (p *Prog) isDisclaimedResolver(fn string) bool {
 			}
 			if inGoAway && len(cl.Args) == 1 && squash(p.text(cl.Args[0])) == "ga.stream" {
 				good++
+			} else if inGoAway && len(cl.Args) == 1 {
+				// the same value spelled as the constant the enclosing branch has just compared it with
+				if k, isK := p.intConst(cl.Args[0]); isK {
+					for _, g := range p.enclosingGuards(pm, cl) {
+						if g.Val && squash(p.text(g.Cond)) == fmt.Sprintf("ga.stream==%d", k) {
+							good++
+							break
+						}
+					}
+				}
 			}
 		})
 	}
@@ -994,7 +1004,7 @@ func ruleClientGoAwayDrain(p *Prog, r *Out) {
 	// GOAWAY(2^31-1) and then GOAWAY(N), and the second one is what disclaims
 	// the streams above N (RFC 7540 s6.8)
 	if rn := p.decl("(*Conn).readNext"); rn != nil {
-		okEvery := false
+		okEvery, okZero := false, false
 		ast.Inspect(rn.Body, func(n ast.Node) bool {
 			cc, ok := n.(*ast.CaseClause)
 			if !ok || len(cc.List) != 1 || p.text(cc.List[0]) != "FrameGoAway" {
@@ -1010,9 +1020,22 @@ func ruleClientGoAwayDrain(p *Prog, r *Out) {
 					continue
 				}
 				okEvery = hasStmt(p, eb.List, "c.closeRef=ga.stream") && hasStmt(p, eb.List, "c.state=connStateClosed") && hasStmt(p, eb.List, "c.failAbove(ga.stream)")
+				// last-stream-id 0 disclaims everything: answered by the read loop, before it closes the socket
+				zt := stmtTexts(p, ifs.Body.List)
+				fa, cl := -1, -1
+				for i, x := range zt {
+					if x == "c.failAbove(0)" || x == "c.failAbove(ga.stream)" {
+						fa = i
+					}
+					if x == "_=c.c.Close()" {
+						cl = i
+					}
+				}
+				okZero = fa >= 0 && cl > fa
 			}
 			return true
 		})
+		r.check(okZero, "a GOAWAY that names no stream disclaims every request, answered by the read loop", p.pos(rn.Pos()), "if ga.stream == 0 { failAbove(0); close; err = ga }", "a GOAWAY with last-stream-id 0 no longer has the read loop fail every request before it closes the socket: they are left to the write loop, which may be inside the caller's Read on a streamed body, and when it gets to them it fails them with an error the client does not retry although the server processed none")
 		r.check(okEvery, "every GOAWAY that names a stream moves the reference and disclaims what is above it", p.pos(rn.Pos()), "if ga.stream == 0 {...} else { closeRef = ga.stream; state = closed; failAbove(ga.stream) }", "a GOAWAY with a last-stream-id is no longer applied unconditionally (reference moved, requests above it failed): the second frame of a graceful shutdown, which lowers the id, is ignored and the requests it disclaims wait for their timeout instead of being retried")
 	}
 	// the loop's stop test consults a table scan
